@@ -169,4 +169,27 @@ theorem collate_dict_order (pad : S) (fuel : Nat) (fields : List (String × Datu
 
 example : SameFields (S := Nat) [.dict [("a", .int 1), ("b", .str "x")]] [.dict [("b", .str "x"), ("a", .int 1)]] :=
   .cons _ _ _ _ (List.Perm.swap _ _ _) (by decide) .nil
+/-! ### the equal-lengths special case; nothing reordered, nothing invented -/
+
+/-- the "already equal lengths" special case: an example that is as long as the longest one is reproduced as it is — no element is added -/
+theorem padData_full {α : Type} (d : List α) (len maxLen inner : Nat) (pad : α) (hl : maxLen ≤ len) :
+    padData d len maxLen inner pad = d := by
+  have : maxLen - len = 0 := by omega
+  simp [padData, this]
+
+/-- padding never reorders or rewrites: the original data is a prefix of the padded row, whatever the lengths -/
+theorem padData_isPrefix {α : Type} (d : List α) (len maxLen inner : Nat) (pad : α) :
+    d <+: padData d len maxLen inner pad := by
+  simp [padData]
+
+/-- every element of the padded row is an original element or the pad value: nothing is invented -/
+theorem padData_mem {α : Type} (d : List α) (len maxLen inner : Nat) (pad x : α) (hx : x ∈ padData d len maxLen inner pad) :
+    x ∈ d ∨ x = pad := by
+  simp only [padData, List.mem_append, List.mem_replicate] at hx
+  rcases hx with h | ⟨_, h⟩
+  · exact Or.inl h
+  · exact Or.inr h
+
+example : padData [1, 2, 3, 4] 2 2 2 0 = [1, 2, 3, 4] := by decide
+example : padData [1, 2] 1 3 2 9 = [1, 2, 9, 9, 9, 9] := by decide
 end PoseVerif.Props.C20
